@@ -1056,6 +1056,8 @@ func runC10(c *Ctx) {
 	checkStartDirectoryIsTheBase(c, "R2")
 	// R13 (shared with C11.R17): the error a handler object returns from Close is what the client's Close gets
 	checkCloseErrorsKept(c, "R13")
+	// R14 (shared with C01.R20): what a handler's ReadAt returned is what is sent — data while there is data, EOF at the end, the error otherwise
+	c.withOnlyKeys("R20", "R14", []string{"fileget", "fileputget"}, func() { checkReadReplyTruthTable(c, "R20") })
 }
 
 // checkRepliesFixedWhenHandlerReturns (R11): a reply is marshalled by the packet manager's controller after it was
@@ -1532,6 +1534,29 @@ func checkStartDirectoryIsTheBase(c *Ctx, rule string) {
 				}
 			}
 			c.check(ok, rule, "base directory of "+calleeName(cc)+" in "+fnName(fn), p.Pos(in.Pos()), "rs.startDirectory", "a request path is made absolute against something other than the configured start directory: relative names mean another place in this request than in the others")
+		})
+	}
+	// the one handler method that takes a bare path besides RealPath (whose argument is verbatim by documentation):
+	// Readlink gets the Request's cleaned Filepath, not the packet's wire path
+	for _, fn := range p.LibFuncs() {
+		if outermost(fn).Package() != p.Sftp {
+			continue
+		}
+		eachInstr(fn, func(in ssa.Instruction) {
+			cc := callOf(in)
+			if cc == nil || !cc.IsInvoke() || cc.Method.Name() != "Readlink" || len(cc.Args) != 1 || typeName(cc.Value.Type()) != "ReadlinkFileLister" {
+				return
+			}
+			ok := false
+			for _, l := range leavesOf(cc.Args[0]) {
+				if l.Kind == leafFieldLoad && l.Field == "Filepath" && typeName(l.Base.Type()) == "Request" {
+					ok = true
+				} else {
+					ok = false
+					break
+				}
+			}
+			c.check(ok, rule, "path given to the Readlink handler in "+fnName(fn), p.Pos(in.Pos()), "the Request's Filepath (cleaned against the start directory)", "the Readlink handler is given a path that is not the Request's cleaned Filepath (the packet's wire path): it arrives unclean and relative, and is not confined to the served tree")
 		})
 	}
 	c.check(n >= 8, rule, "path-cleaning calls in the request server", "?", fmt.Sprintf("%d calls", n), fmt.Sprintf("only %d calls of requestFromPacket/cleanPathWithBase found in RequestServer's methods", n))
